@@ -171,7 +171,105 @@ def make_classes():
                 else:
                     d_residuals[o['name']] = d_outputs[o['name']] / d
 
-    return AffineComp, MatFreeAffineComp, ImplicitAffineComp
+    def _bil_setup(self):
+        _setup_io(self)
+
+    class _BilBase(om.ImplicitComponent):
+        """two states of equal size:  r0 = d0*y0 - (A0 x + b0),  r1 = y0*y1 - (A1 x + b1)  (elementwise product);
+        the linearisation depends on the state"""
+        def initialize(self):
+            self.options.declare('comp', recordable=False)
+            self.options.declare('md', recordable=False)
+
+        def _names(self):
+            c, md = self.options['comp'], self.options['md']
+            return md['outs'][c['outs'][0]]['name'], md['outs'][c['outs'][1]]['name']
+
+        _rhs = ImplicitAffineComp._rhs
+
+        def apply_nonlinear(self, inputs, outputs, residuals):
+            c = self.options['comp']
+            n0, n1 = self._names()
+            d0 = np.array([fl(x) for x in c['d'][0]])
+            residuals[n0] = d0 * outputs[n0] - self._rhs(inputs, 0)
+            residuals[n1] = outputs[n0] * outputs[n1] - self._rhs(inputs, 1)
+
+        def solve_nonlinear(self, inputs, outputs):
+            c = self.options['comp']
+            n0, n1 = self._names()
+            d0 = np.array([fl(x) for x in c['d'][0]])
+            outputs[n0] = self._rhs(inputs, 0) / d0
+            outputs[n1] = self._rhs(inputs, 1) / outputs[n0]
+
+        def solve_linear(self, d_outputs, d_residuals, mode):
+            c = self.options['comp']
+            n0, n1 = self._names()
+            d0 = np.array([fl(x) for x in c['d'][0]])
+            # the state at the linearisation point, cached by linearize() (self._outputs is in scaled units here)
+            y0, y1 = self._lin_state
+            if mode == 'fwd':
+                d_outputs[n0] = d_residuals[n0] / d0
+                d_outputs[n1] = (d_residuals[n1] - y1 * d_outputs[n0]) / y0
+            else:
+                d_residuals[n1] = d_outputs[n1] / y0
+                d_residuals[n0] = (d_outputs[n0] - y1 * d_residuals[n1]) / d0
+
+    class BilinearComp(_BilBase):
+        def setup(self):
+            _setup_io(self)
+            _declare(self, sign=-1.0)
+            n0, n1 = self._names()
+            n = int(np.prod(self.options['md']['outs'][self.options['comp']['outs'][0]]['shape']))
+            ar = np.arange(n)
+            self.declare_partials(n0, n0, rows=ar, cols=ar, val=np.array([fl(x) for x in self.options['comp']['d'][0]]))
+            self.declare_partials(n1, n0, rows=ar, cols=ar)
+            self.declare_partials(n1, n1, rows=ar, cols=ar)
+
+        def linearize(self, inputs, outputs, partials):
+            n0, n1 = self._names()
+            self._lin_state = (outputs[n0].copy(), outputs[n1].copy())
+            for key, v in self._jvals.items():
+                partials[key] = v.copy()
+            partials[n1, n0] = outputs[n1].ravel().copy()
+            partials[n1, n1] = outputs[n0].ravel().copy()
+
+    class MatFreeBilinearComp(_BilBase):
+        def setup(self):
+            _setup_io(self)
+
+        def linearize(self, inputs, outputs, partials):
+            n0, n1 = self._names()
+            self._lin_state = (outputs[n0].copy(), outputs[n1].copy())
+
+        def apply_linear(self, inputs, outputs, d_inputs, d_outputs, d_residuals, mode):
+            c, md = self.options['comp'], self.options['md']
+            n0, n1 = self._names()
+            d0 = np.array([fl(x) for x in c['d'][0]])
+            y0, y1 = outputs[n0], outputs[n1]
+            if mode == 'fwd':
+                if n0 in d_residuals and n0 in d_outputs:
+                    d_residuals[n0] += d0 * d_outputs[n0]
+                if n1 in d_residuals:
+                    if n0 in d_outputs:
+                        d_residuals[n1] += y1 * d_outputs[n0]
+                    if n1 in d_outputs:
+                        d_residuals[n1] += y0 * d_outputs[n1]
+            else:
+                if n0 in d_outputs:
+                    if n0 in d_residuals:
+                        d_outputs[n0] += d0 * d_residuals[n0]
+                    if n1 in d_residuals:
+                        d_outputs[n0] += y1 * d_residuals[n1]
+                if n1 in d_outputs and n1 in d_residuals:
+                    d_outputs[n1] += y0 * d_residuals[n1]
+            for ko, ki, on, inn, A, st in _blocks(self):
+                if on in d_residuals and inn in d_inputs:
+                    if mode == 'fwd':
+                        d_residuals[on] -= (A @ d_inputs[inn].ravel()).reshape(d_residuals[on].shape)
+                    else:
+                        d_inputs[inn] -= (A.T @ d_residuals[on].ravel()).reshape(d_inputs[inn].shape)
+
+    return AffineComp, MatFreeAffineComp, ImplicitAffineComp, BilinearComp, MatFreeBilinearComp
 
 
 _CLS = None
@@ -254,7 +352,7 @@ def make_solver(spec, kind):
 def build(md, cfg=None, setup=True):
     """cfg: {'mode': 'fwd'|'rev'|'auto', 'force_alloc_complex': bool}"""
     import openmdao.api as om
-    Aff, MF, Imp = classes()
+    Aff, MF, Imp, Bil, MFBil = classes()
     cfg = cfg or {}
     p = om.Problem()
     groups = {'': p.model}
@@ -274,14 +372,21 @@ def build(md, cfg=None, setup=True):
             for oid in c['outs']:
                 o = md['outs'][oid]
                 kw = {'units': o['units']} if o['units'] else {}
+                for k in ('ref', 'ref0', 'res_ref'):
+                    if o.get(k) is not None:
+                        v = o[k]
+                        kw[k] = np.array([fl(x) for x in v['arr']]).reshape(o['shape']) if isinstance(v, dict) else fl(v)
                 ivc.add_output(o['name'], val=np.array([fl(v) for v in o['val']]).reshape(o['shape']), **kw)
             g.add_subsystem(c['name'], ivc)
         elif c['kind'] == 'impl':
             g.add_subsystem(c['name'], Imp(comp=c, md=md))
+        elif c['kind'] == 'bil':
+            g.add_subsystem(c['name'], (MFBil if c.get('mf') else Bil)(comp=c, md=md))
         else:
             mf = any(s == 'matfree' for row in c['storage'] for s in row)
             g.add_subsystem(c['name'], (MF if mf else Aff)(comp=c, md=md))
     # connections
+    shared = {}
     for i in md['ins']:
         how = i.get('how', 'connect')
         if how == 'connect':
@@ -295,10 +400,23 @@ def build(md, cfg=None, setup=True):
             groups[base].connect(rel(s, base), rel(t, base), **kw)
         elif how == 'promote':
             _realise_promote(md, i, groups)
+        elif how == 'promote_shared':
+            shared.setdefault((i['comp'], i['share']['id']), []).append(i)
         elif how == 'auto':
             pass
         else:
             raise ValueError(how)
+    for (cid, sid), members in shared.items():
+        c = md['comps'][cid]
+        g = group(c['group'])
+        sh = members[0]['share']
+        g.promotes(c['name'], inputs=[(m['name'], m['share']['alias']) for m in members],
+                   src_indices=term_to_py(sh['term']), flat_src_indices=True)
+        for m in members:
+            s_ = out_path(md, m['src'])
+            tprom = (c['group'] + '.' if c['group'] else '') + m['share']['alias']
+            base = _lca_groups(s_, tprom)
+            groups[base].connect(rel(s_, base), rel(tprom, base))
     for path, sv in md.get('solvers', {}).items():
         g = groups[path]
         nl = make_solver(sv.get('nl'), 'nl')
